@@ -1129,5 +1129,14 @@ def run(tier, procs=None, only=None):
     )
 
 
+# every real-library oracle of this property (each returns (reproduced, detail)); used to confirm structural facts that carry no replay of their own
+ALL_REPLAYS = [lambda c: replay_planted('zncc')(c), lambda c: replay_planted('ncc')(c), lambda c: replay_planted('pcc')(c), lambda c: replay_planted('fsc')(c), lambda c: replay_landscape_multi('zncc')(c)]
+
+
 def replay(data):
-    return replay_planted(data.get("kind", "zncc"))(data.get("cex", {}))
+    key = data.get("key", "")
+    kind = next((k for k in ("zncc", "ncc", "pcc", "fsc") if k in key), data.get("kind", "zncc"))
+    ok, detail = replay_planted(kind)(data.get("cex") or {})
+    print("replay:", detail)
+    print("REPRODUCED" if ok else "not reproduced")
+    return 1 if ok else 0
